@@ -1,40 +1,52 @@
 //! C10 bounded witness search (whole database): "Once a file is removed from the analysis, either deleted or closed
 //! when it is not on disk, no result refers to it ... Its memory is also released."
 //!
-//!   replay search [seed] [count] [--ignore <substr>]...   generated workspaces; prints `FOUND ...` and exits 1 on the
-//!                                                         first violation, exit 0 + one summary line otherwise
-//!   replay case <k> [seed] [--ignore <substr>]...         re-run generated case k (prints the workspace, -v style)
-//!   replay list                                           the building blocks
-//!   replay dir <dir> [batch|seq] [--ignore <substr>]...   a hand-written workspace (<dir>/*.lua, <dir>/lib/*.lua)
-//! exit 2 = a scenario could not be set up (file id / module missing, analysis panicked while *adding*).
+//!   replay search [seed] [count] [opts]     generated workspaces (default seed 1, 210 cases = 160 systematic + 50
+//!                                           random); prints `FOUND ...` + the workspace and exits 1 on the first
+//!                                           violation, exit 0 + one summary line otherwise
+//!   replay case <k> [seed] [opts]           re-run generated case k: prints the workspace and every finding
+//!   replay dir <dir> [batch|seq] [opts]     a hand-written workspace (<dir>/*.lua, <dir>/lib/*.lua)
+//!   replay list                             the building blocks
+//!   opts: --known <file>   findings listed in the file are printed as KNOWN instead of FOUND and do not fail
+//!                          (format: see `load_known`; example: known_open_findings.txt next to Cargo.toml; default: none)
+//!         --strict         STALE-DEPENDENT and RESTORE-DIFF lines fail too
+//!         --all            do not stop at the first violation; print every distinct finding once
+//!         --ignore <s>     drop every field whose dotted path contains <s> (exploration only)
+//! exit 2 = a scenario could not be set up (no uri / file id / module, the analysis panicked, dump shape unknown).
 //!
 //! Decides nothing: a hit is a concrete history of public-API calls on the REAL crate after which the real database
 //! still mentions a removed file.  Needs no hook: `DbIndex` and every index derive `Debug`; the oracles read the pretty
 //! `{:#?}` dump of `analysis.compilation.get_db()`.
 //!
-//! Canonical form of a dump: every `X {\n id: N,\n }` triple is collapsed to `X(N)` (so a file id is the single token
-//! `FileId(N)`), every line is paired with the dotted chain of the *named* fields that enclose it
-//! (`types_index.supers`, `property_index.property_owners_map`, ...), and the result is compared as a multiset of
-//! (field path, line) -- independent of hash-map iteration order.
+//! Canonical form of a dump: every `X {\n id: N,\n }` triple is collapsed to `X(N)` (a file id is the single token
+//! `FileId(N)`), the indented text is parsed back into a tree (struct / tuple / list / set / map entry), children of
+//! collections are compared as multisets (hash order does not matter), every finding carries `index.field`.
 //!
-//! Oracles, for a file F with id N:
+//! Oracles, for a file F with id N (F = every file of the workspace in turn, each on a freshly built analysis):
 //!   TRACE     after `remove_file_by_uri(F)`: no line of the dump contains `FileId(N)`, no line of `vfs.file_id_map` /
-//!             `vfs.file_path_map` carries N or F's path, no line anywhere contains F's path.      (no exclusion at all)
-//!   NEVER-HAD analyse the workspace without F; add F; remove F: the canonical dump equals the one before adding F.
-//!   GROWTH    remove F; then 5 x (add F; remove F): the canonical dump after every round equals the one after the
-//!             first removal (and TRACE holds for every fresh id F received).
-//!   RESTORE   (C08 flavour) remove F; add F again: the canonical dump equals the one before the removal, after renaming
-//!             F's new id to the old one.  Only meaningful when the first analysis saw all files at once (mode batch);
-//!             in mode seq it is skipped (a file analysed before its dependencies existed legitimately differs).
-//! Places that legitimately differ, excluded from the three *comparisons* (never from TRACE), each by exact field:
-//!   vfs.file_data  lines `None,`          the id allocator: an id is an index into this vector and is never reused, a
+//!             `vfs.file_path_map` carries N, no line anywhere contains F's path.                    (no exclusion at all)
+//!   NEVER-HAD analyse the workspace without F; add F; remove F: the dump equals the one before adding F.
+//!   GROWTH    all files analysed; remove F; 5 x (add F; remove F): the dump after round 1 and after round 5 equals
+//!             the one after the first removal (ids F has had are unified), TRACE holds for every id F received.
+//!   RESTORE   (C08 flavour, mode batch only) remove F; add F again: the dump equals the one before the removal, the
+//!             new id renamed to the old one.
+//!   TRACE-REANALYSED  when a removal left stale dependents: re-submit every remaining file (3 passes); nothing may
+//!             name F any more.
+//! Classes:
+//!   Leak (FOUND, fails)      state the removed file contributed that survives its removal, or state of other files
+//!                            that the add/remove destroyed or changed
+//!   StaleDependent (printed, counted, fails only with --strict)   a fact that belongs to a file that is still present
+//!                            and mentions F (`remove_file_by_uri` does not re-analyse dependents): see `Walk`
+//!   RestoreDiff (same)       every RESTORE difference: on the real code they are stale dependents that accumulate and
+//!                            order-dependent inference; leaks proper are caught by the other oracles
+//! Places that legitimately differ, excluded from the *comparisons* (never from TRACE), each by exact field:
+//!   vfs.file_data  elements `None,`       the id allocator: an id is an index into this vector and is never reused, a
 //!                                         removed file leaves its (empty) slot
-//!   modules_index.id_counter, property_index.id_count
-//!                                         monotonic id allocators
-//!   vfs.node_cache.*                      rowan's green-node interner shared by all parses (tokens / small nodes, no file
-//!                                         ids); it never shrinks -- reported as an observation, not searched
-//!   numbers inside LuaPropertyId(..) / ModuleNodeId(..) are masked (allocator-dependent), for RESTORE also the bare
-//!   u32 ids of vfs.file_id_map / vfs.file_path_map are renamed new -> old.
+//!   modules_index.id_counter, property_index.id_count      monotonic id allocators
+//!   vfs.node_cache                        rowan's green-node interner shared by all parses (tokens / small nodes, no file
+//!                                         ids); it never shrinks -- an observation, not searched
+//!   numbers inside LuaPropertyId(..) / ModuleNodeId(..) are masked (allocator-dependent); for RESTORE the bare u32
+//!   ids of vfs.file_id_map / vfs.file_path_map are renamed new -> old as well.
 use emmylua_code_analysis::{EmmyLuaAnalysis, Emmyrc, FileId, file_path_to_uri};
 use std::path::PathBuf;
 use std::sync::Arc;
